@@ -107,7 +107,7 @@ pub fn vocab(lang: &str) -> Vec<&'static str> {
         ],
     };
     if lang == "xd" {
-        v.extend(vec!["café", "cafe\u{301}", "Éclair", "E\u{301}clair", "résumé", "re\u{301}sume\u{301}", "idee", "idée"]);
+        v.extend(vec!["café", "cafe\u{301}", "Éclair", "E\u{301}clair", "résumé", "re\u{301}sume\u{301}", "idee", "idée", "ijsvrij", "ĳsvrĳ", "blijft", "IJssel", "Ĳssel", "bijou"]);
     }
     v.extend(vec![
         "wifi", "wi", "fi", "usb", "t", "x", "50s", "50's", "500w", "a4", "shirt", "aa", "ab", "aab", "abab", "t-shirt",
@@ -167,6 +167,13 @@ pub fn any_word(rng: &mut Rng, lang: &str) -> String {
             let two = [*rng.pick(&alpha), *rng.pick(&alpha)];
             rand_word(rng, &two, 1, 9)
         }
+        17 if rng.chance(1, 6) => {
+            // letters outside the Basic Multilingual Plane (Deseret, lower case with one-to-one capitals): ordinary letters
+            // to the tokeniser, two UTF-16 units and four UTF-8 bytes each
+            let deseret: Vec<char> = (0..12u32).filter_map(|k| std::char::from_u32(0x10428 + k)).collect();
+            let w = rand_word(rng, &deseret, 3, 9);
+            if rng.chance(1, 4) { format!("{}{}", rand_word(rng, &alpha, 1, 3), w) } else { w }
+        }
         17 => match rng.below(12) {
             0 => rand_word(rng, &alpha, 71, 300),
             1 | 2 => {
@@ -183,13 +190,6 @@ pub fn any_word(rng: &mut Rng, lang: &str) -> String {
             }
             _ => rand_word(rng, &alpha, 18, 70),
         },
-        17 if rng.chance(1, 6) => {
-            // letters outside the Basic Multilingual Plane (Deseret, lower case with one-to-one capitals): ordinary letters
-            // to the tokeniser, two UTF-16 units and four UTF-8 bytes each
-            let deseret: Vec<char> = (0..12u32).filter_map(|k| std::char::from_u32(0x10428 + k)).collect();
-            let w = rand_word(rng, &deseret, 3, 9);
-            if rng.chance(1, 4) { format!("{}{}", rand_word(rng, &alpha, 1, 3), w) } else { w }
-        }
         18 if rng.chance(1, 3) => {
             // symbols that neither split words nor count as letters, inside a word: "c++11", "4''x6", "a**b", "tcp/ip"
             let sym: Vec<char> = "+*/'\"#_=@%^~|$".chars().collect();
@@ -218,6 +218,7 @@ pub fn any_word(rng: &mut Rng, lang: &str) -> String {
             }
             w
         }
+        19 if rng.chance(1, 4) && !table_keys(lang).is_empty() => lookalike_word(rng, lang),
         _ => {
             // accented synthetic word from the language's inventory
             let acc = oracle::accents(lang);
@@ -227,6 +228,101 @@ pub fn any_word(rng: &mut Rng, lang: &str) -> String {
                 .collect()
         }
     }
+}
+
+/// The keys of a language's normalisation tables: (first, second) character of every two-character key and
+/// (key, None) of every one-character key (compositions and reductions alike).
+pub fn table_keys(lang: &str) -> Vec<(char, Option<char>)> {
+    let mut out: Vec<(char, Option<char>)> = vec![];
+    for a in oracle::accents(lang).into_iter().chain(oracle::reduced_pairs(lang)) {
+        out.push((a.base, Some(a.mark)));
+        if oracle::folds_composed(lang) {
+            out.push((a.composed, None));
+        }
+    }
+    for (a, b, _) in oracle::symbol_pairs(lang) {
+        out.push((a, Some(b)));
+    }
+    for (a, _) in oracle::singleton_table(lang) {
+        out.push((a, None));
+    }
+    for (a, _) in oracle::expanding_table(lang) {
+        out.push((a, None));
+    }
+    for a in oracle::deleted_by_composition(lang) {
+        out.push((a, None));
+    }
+    out
+}
+
+/// A character that is NOT `ch` but would be taken for it by a table that keeps fewer bits per character than a
+/// character has (8, 16 or 20), or `ch` itself when no such character exists.
+pub fn lookalike_char(rng: &mut Rng, ch: char) -> char {
+    let c = ch as u32;
+    let cand = match rng.below(4) {
+        0 => c + 0x100 * rng.range(1, 4) as u32,
+        1 | 2 => c + 0x10000 * rng.range(1, 16) as u32,
+        _ => c + 0x100000,
+    };
+    std::char::from_u32(cand).unwrap_or(ch)
+}
+
+/// A pair that is NOT (c1, c2) but would get the same key if the two were packed into one integer with fewer bits per
+/// character than a character has: one of them replaced by a look-alike, or the second one pushed past the field
+/// width with the overflow landing in the first one's lowest bit.
+pub fn lookalike_pair(rng: &mut Rng, c1: char, c2: char) -> (char, char) {
+    match rng.below(4) {
+        0 => (lookalike_char(rng, c1), c2),
+        1 => (c1, lookalike_char(rng, c2)),
+        _ => {
+            let width = *rng.pick(&[8u32, 16, 16, 20]);
+            let second = std::char::from_u32(c2 as u32 + (1 << width));
+            let first = if rng.chance(1, 2) { Some(c1) } else { std::char::from_u32((c1 as u32).wrapping_sub(1)) };
+            match (first, second) {
+                (Some(a), Some(b)) => (a, b),
+                _ => (lookalike_char(rng, c1), c2),
+            }
+        }
+    }
+}
+
+/// A word around a look-alike of one key of the language's normalisation tables (`table_keys` must not be empty):
+/// nothing in it is a key, so normalisation leaves those characters alone.
+pub fn lookalike_word(rng: &mut Rng, lang: &str) -> String {
+    let keys = table_keys(lang);
+    let alpha = lower_alphabet(lang);
+    let (a, b) = *rng.pick(&keys);
+    let mut w = rand_word(rng, &alpha, 0, 3);
+    match b {
+        Some(b) => {
+            let (x, y) = lookalike_pair(rng, a, b);
+            w.push(x);
+            w.push(y);
+        }
+        None => w.push(lookalike_char(rng, a)),
+    }
+    w.push_str(&rand_word(rng, &alpha, 0, 3));
+    if !oracle::has_alnum(&w) {
+        w.push(alpha[0]);
+    }
+    w
+}
+
+/// A word that is NOT `w` but shares a trigram key with it under a narrow packing (see `lookalike_pair`).
+pub fn lookalike_of_word(rng: &mut Rng, w: &[char]) -> Vec<char> {
+    let mut out = w.to_vec();
+    if out.is_empty() {
+        return out;
+    }
+    let p = rng.below(out.len());
+    if p > 0 && rng.chance(1, 2) {
+        let (x, y) = lookalike_pair(rng, out[p - 1], out[p]);
+        out[p - 1] = x;
+        out[p] = y;
+    } else {
+        out[p] = lookalike_char(rng, out[p]);
+    }
+    out
 }
 
 pub fn rand_title(rng: &mut Rng, lang: &str, max_words: usize) -> String {
@@ -355,7 +451,8 @@ pub fn shaped_title(rng: &mut Rng, lang: &str) -> String {
 
 pub fn long_title(rng: &mut Rng, lang: &str) -> String {
     // beyond the 20-slot buffers; one in five beyond 64 and 128 words as well
-    let n = if rng.chance(1, 5) { rng.range(65, 140) } else { rng.range(21, 40) };
+    // ... and one in twenty-five beyond 256 words (a query made of the whole title then matches more than 255 words)
+    let n = if rng.chance(1, 25) { rng.range(257, 330) } else if rng.chance(1, 5) { rng.range(65, 140) } else { rng.range(21, 40) };
     let alpha = lower_alphabet(lang);
     let v = vocab(lang);
     let mut words: Vec<String> = vec![];
